@@ -127,12 +127,7 @@ func (a *Auth) Load(service server.Server) error {
 	err := registerAPI(service, a)
 	log = server.LoggerWithField(zap.String("plugin", Name))
 
-	var pwdFile string
-	if path.IsAbs(a.config.PasswordFile) {
-		pwdFile = a.config.PasswordFile
-	} else {
-		pwdFile = path.Join(a.pwdDir, a.config.PasswordFile)
-	}
+	pwdFile := a.passwordFile()
 	f, err := os.OpenFile(pwdFile, os.O_CREATE|os.O_RDONLY, 0666)
 	if err != nil {
 		return err
@@ -168,6 +163,15 @@ func (a *Auth) Load(service server.Server) error {
 		a.indexer.Set(v.Username, v)
 	}
 	return nil
+}
+
+// passwordFile returns the path of the password file: password_file itself if it is absolute,
+// otherwise relative to the configuration directory. Load and saveFileHandler must agree on it.
+func (a *Auth) passwordFile() string {
+	if path.IsAbs(a.config.PasswordFile) {
+		return a.config.PasswordFile
+	}
+	return path.Join(a.pwdDir, a.config.PasswordFile)
 }
 
 func (a *Auth) Unload() error {
